@@ -449,8 +449,13 @@ func boundCells(t *T, n int) *big.Int {
 	case kBytesN, kFunction:
 		b = big.NewInt(int64(1 + 32))
 	case kFixedArr:
-		b = new(big.Int).Mul(big.NewInt(int64(t.Len)), boundCells(t.Elem, n))
-		b.Add(b, big.NewInt(int64(1+t.Len)))
+		// a declared length beyond what the data can hold is refused before anything is allocated
+		k := int64(t.Len)
+		if c := int64(n/32 + 1); !t.Elem.zeroSize() && c < k {
+			k = c
+		}
+		b = new(big.Int).Mul(big.NewInt(k), boundCells(t.Elem, n))
+		b.Add(b, big.NewInt(1+2*k))
 	case kDynArr:
 		c := int64(n/32 + 1)
 		b = new(big.Int).Mul(big.NewInt(c), boundCells(t.Elem, n))
